@@ -5,7 +5,8 @@
    transport are oracles: the theorems below hold for EVERY answer they may give. *)
 From Coq Require Import List Bool.
 From EN Require Import Lib.Bytes Conc.TlsBase Conc.TlsPump Conc.IdealTls Conc.TlsDuplex
-  Proofs.C08_proofs Proofs.Ideal_proofs Proofs.C08_locks Proofs.C08_duplex Proofs.C08_progress Proofs.C08_refute.
+  Proofs.C08_proofs Proofs.Ideal_proofs Proofs.C08_locks Proofs.C08_duplex Proofs.C08_progress Proofs.C08_refute
+  Proofs.C08_handshake.
 Import ListNotations.
 
 (* (i) cipher_only.  For every trace (any number of tasks, any interleaving, any answers of the SSL object and of the
@@ -116,8 +117,7 @@ Print Assumptions ideal_decodes_only_complete_records.
      * every recv() that is still waiting has returned EVERYTHING the other side has written so far.
    Contrapositive: whenever plaintext written by one side has not been returned to a waiting recv() of the other side,
    some transition other than an application call is enabled.  For all values of the three fix flags.
-   NOT covered (missing half of the full statement): that two pending wrap() calls cannot be stuck together
-   (handshake completion needs a protocol-level invariant of the ideal handshake; validated on every real run). *)
+   The other half of the statement (two pending wrap() calls cannot be stuck together) is pump_progress_handshake below. *)
 Theorem pump_progress : forall (fl : flags) (E D : byte -> byte) (M : nat),
   (forall x, D (E x) = x) ->
   forall ls c,
@@ -135,6 +135,28 @@ Theorem pump_progress : forall (fl : flags) (E D : byte -> byte) (M : nat),
        e_got (dA c) = e_written (dB c)).
 Proof. intros fl E D M DE. exact (duplex_progress fl E D M DE). Qed.
 Print Assumptions pump_progress.
+
+(* (iii-h) pump_progress, handshake completion.  Same system, same discipline, same `stuck`.  hs_pending e = the endpoint
+   has a wrap() call (a task running do_handshake) that has not returned.  In NO reachable stuck state
+     * are the wrap() of the client side and the wrap() of the server side both pending;
+     * is the client's wrap() pending while the server's handshake is complete;
+     * is the server's wrap() pending while the client's handshake is complete.
+   So once both sides have called wrap(), some transition other than an application call stays enabled until both calls
+   have returned (a wrap() may of course wait forever for a peer that never calls wrap(): that is not a fault of the
+   pump).  Proof: the conversation of the ideal handshake as an invariant of the two byte streams of the system
+   (incoming BIO ++ in flight ++ outgoing BIO; Proofs/C08_handshake.v, HInv): ClientHello / ServerHello / Finished are
+   each in exactly one place, and a wrap() that waits for the network has no complete record in its incoming BIO; in
+   a stuck state the outgoing BIOs are empty and nothing is in flight (pump_progress), so the flight the waiting side
+   needs would have to be, complete, in its incoming BIO.  For all values of the fix flags. *)
+Theorem pump_progress_handshake : forall (fl : flags) (E D : byte -> byte) (M : nat),
+  (forall x, D (E x) = x) ->
+  forall ls c,
+  gexec fl E D M duplex0 ls = Some c -> stuck fl E D M c ->
+  (hs_pending (dA c) -> hs_pending (dB c) -> False) /\
+  (hs_pending (dA c) -> i_stage (e_ideal (dB c)) = 2 -> False) /\
+  (hs_pending (dB c) -> i_stage (e_ideal (dA c)) = 2 -> False).
+Proof. exact handshake_progress. Qed.
+Print Assumptions pump_progress_handshake.
 
 (* (iii') the discipline "one recv() at a time" is necessary for the code WITHOUT meta/fixes/C08_lost_wakeup.diff
    (f_recheck = false): two concurrent recv() reach a stuck state in which the second one is parked in recv_into although
